@@ -136,6 +136,35 @@ pub fn syntax(cex: &Value) -> Result<String, String> {
         }
       }
     }
+    // equality, ordering and hashing of DID URLs agree with one another
+    {
+      use std::collections::hash_map::DefaultHasher;
+      use std::hash::{Hash, Hasher};
+      let texts = ["did:a:b", "did:a:c", "did:a:b/p", "did:a:b/P", "did:a:b?q", "did:a:b#f", "did:a:b#F", "did:a:b#key%2d1", "did:a:b#key%2D1", "did:a:b?k=%aF&x", "did:a:b?k=%Af&x", "did:a:b/%3a/p", "did:a:b/%3A/p", "did:a:b/p?q#f", "did:a:b/p?q#g"];
+      let urls: Vec<DIDUrl> = texts.iter().filter_map(|t| DIDUrl::parse(t).ok()).collect();
+      let h = |u: &DIDUrl| {
+        let mut s = DefaultHasher::new();
+        u.hash(&mut s);
+        s.finish()
+      };
+      for a in &urls {
+        for b in &urls {
+          let (eq, ord) = (a == b, a.cmp(b));
+          if eq != (ord == std::cmp::Ordering::Equal) {
+            log.push(format!("[eqordhash] {a} vs {b}: == is {eq} but cmp is {ord:?}"));
+          }
+          if eq && h(a) != h(b) {
+            log.push(format!("[eqordhash] {a} == {b} but their hashes differ"));
+          }
+          if ord != b.cmp(a).reverse() {
+            log.push(format!("[eqordhash] {a} vs {b}: cmp is not antisymmetric"));
+          }
+          if eq != (a.to_string() == b.to_string()) {
+            log.push(format!("[eqordhash] {a} vs {b}: == is {eq} although the string forms {}", if eq { "differ" } else { "are equal" }));
+          }
+        }
+      }
+    }
     // setters / join: either re-parses to itself or rejected leaving the value unchanged
     for t in &tails {
       if t.is_empty() || t.starts_with('?') || t.starts_with('#') || t.contains("?#") || t.ends_with('?') && t.len() > 1 {
